@@ -123,6 +123,9 @@ def run(ctx):
                                   "and subtree are cleaned like any other element's")
     from . import C15 as _C15
     _C15.replacement_node_rules(ctx, w, "C14.replaced-node")
+    # every node the sanitizer emits has been through node_action / clean_element_attributes: the children of kept AND of ignored (unwrapped)
+    # elements are each passed to clean_node
+    _C15.traversal_rules(ctx, w, "C14.traversal")
     fc = w.fn(CL + "<impl ruma_html::sanitizer_config::SanitizerConfig>::clean_node")
     dex2 = D.Dex(w.lookup, adt_discr=w.adt_discr, unroll=1, effects=lambda n: n.startswith("ruma_html::"))
     paths = dex2.paths(fc, [D.sym("self"), D.sym("node"), D.sym("depth")])
